@@ -364,7 +364,7 @@ func init() {
 			if tier == "thorough" {
 				return nCells + 3000
 			}
-			return nCells
+			return nCells + 240
 		},
 		Run:         c20Run,
 		MustProbe:   []string{"gave_up_within_bound", "wait_capped_at_max", "success_after_failures_4+", "calls_through_one_long_lived_getter", "successful_response_with_empty_body"},
